@@ -171,7 +171,7 @@ pub fn gen_plan(g: &mut G, max_payload: usize) -> BodyPlan {
     let nsegs = segs.len();
     let script = Script::from_wire(&wire.bytes, &segs, End::Fin);
     let coalesce = g.chance(1, 4);
-    let mut faults = ConnFaults { window: 64 * 1024, coalesce, ..Default::default() };
+    let mut faults = ConnFaults { window: 64 * 1024, coalesce, timeout_is_timed_out: g.chance(1, 3), ..Default::default() };
     if g.chance(1, 6) {
         let k = g.range(1, 4);
         for _ in 0..k {
